@@ -42,6 +42,21 @@ def apply_model(m: Model, op):
         _need(fs(a, b) not in m.bonds, "bond is new")
         _need(role is None or m.is_reaction, "role only on reaction graphs")
         m.add_bond(a, b, role, **attrs)
+    elif name == "bonds_from_matrix":
+        # bonds_from_bond_order_matrix: entry (i, j) above the threshold adds
+        # a bond between the atoms whose ids are i and j
+        _, mat, with_bo = op
+        n = len(mat)
+        _need(sorted(m.atoms) == list(range(n)) and n >= 2, "ids are 0..n-1")
+        for i in range(n):
+            for j in range(n):
+                if mat[i][j] > 0.5:
+                    _need(i != j and (fs(i, j) not in m.bonds
+                                      or mat[j][i] == mat[i][j]),
+                          "only new bonds, consistent values")
+                    if fs(i, j) not in m.bonds:
+                        m.add_bond(i, j, None, **(
+                            {"bond_order": mat[i][j]} if with_bo else {}))
     elif name == "remove_bond":
         _need(fs(op[1], op[2]) in m.bonds, "bond exists")
         m.remove_bond(op[1], op[2])
@@ -163,6 +178,10 @@ def apply_real(g, op, pool=None):
         g.remove_atom(op[1])
     elif name == "add_bond":
         rc.add_bond_real(g, op[1], op[2], op[3], op[4])
+    elif name == "bonds_from_matrix":
+        import numpy as np
+        g.bonds_from_bond_order_matrix(np.array(op[1], dtype=float),
+                                       include_bond_order=bool(op[2]))
     elif name == "remove_bond":
         g.remove_bond(op[1], op[2])
     elif name == "set_atom_attr":
@@ -452,6 +471,8 @@ def gen_op(tp, m: Model, ids, elements=(6, 8), allow_relabel=True,
             choices += ["del_atom_attr"]
     if len(atoms) >= 2:
         choices += ["add_bond"] * 5
+        if sorted(atoms) == list(range(len(atoms))):
+            choices += ["bonds_from_matrix"] * 2
     if bonds:
         choices += ["remove_bond"] * 2 + ["set_bond_attr"] * 2
         if any(m.bonds[b] for b in bonds):
@@ -497,6 +518,23 @@ def gen_op(tp, m: Model, ids, elements=(6, 8), allow_relabel=True,
                     attrs[tp.pick(ATTR_NAMES)] = tp.pick(ATTR_VALUES)
                 return ["add_bond", a, b, role, attrs]
         return None
+    if name == "bonds_from_matrix":
+        n = len(atoms)
+        mat = [[0] * n for _ in range(n)]
+        some = False
+        for i in range(n):
+            for j in range(i + 1, n):
+                if fs(i, j) not in m.bonds and tp.chance(90):
+                    v = tp.pick([1, 1, 2])
+                    k = tp.below(3)         # upper / lower / both triangles
+                    if k in (0, 2):
+                        mat[i][j] = v
+                    if k in (1, 2):
+                        mat[j][i] = v
+                    some = True
+        if not some:
+            return None
+        return ["bonds_from_matrix", mat, tp.chance(128)]
     if name == "remove_bond":
         return ["remove_bond", *sorted(tp.pick(bonds))]
     if name == "set_atom_attr":
